@@ -91,6 +91,7 @@ type Gen struct {
 	epochStart int
 	rels       []int // indices of relation comps
 	plain      []int // indices of non-relation comps
+	refused    bool  // a registration was refused (locked world); register again when unlocked
 }
 
 func (g *Gen) do(line string) []string {
@@ -305,6 +306,9 @@ func (g *Gen) filterStr(depth int) string {
 		inner := "A " + idsStr([]int{pick(g.rng, g.rels)})
 		if g.rng.chance(35) {
 			inner = g.filterStr(depth + 1)
+		} else if g.rng.chance(30) && len(g.plain) > 0 {
+			// does not ask for the relation component: tables without relation match too
+			inner = "A " + idsStr(g.subset(g.plain, 1))
 		}
 		return "R " + inner + " " + g.targetRef("")
 	case x < 88 && depth < 3:
@@ -368,19 +372,52 @@ func (g *Gen) setup() {
 			}
 		}
 	}
-	for i := 0; i < nPlain; i++ {
+	// registration order: plain types first (the common layout), relation types first (a
+	// relation component gets id 0, a zero-sized relation precedes the data columns), or mixed
+	regPlain := func(i int) {
 		reg(pick(g.rng, kinds), true)
 		if i%2 == 1 {
 			pad()
 		}
 	}
-	for i := 0; i < nRel; i++ {
+	regRel := func(i int) {
 		reg(pick(g.rng, []string{"rel", "relp"}), true)
 		if i == 0 {
 			pad()
 		}
 	}
-	for i := 0; i < g.p.resources; i++ {
+	switch order := g.rng.intn(4); order {
+	case 0: // relations first
+		for i := 0; i < nRel; i++ {
+			regRel(i)
+		}
+		for i := 0; i < nPlain; i++ {
+			regPlain(i)
+		}
+	case 1: // mixed
+		ip, ir := 0, 0
+		for ip < nPlain || ir < nRel {
+			if ir < nRel && (ip >= nPlain || g.rng.chance(40)) {
+				regRel(ir)
+				ir++
+			} else {
+				regPlain(ip)
+				ip++
+			}
+		}
+	default:
+		for i := 0; i < nPlain; i++ {
+			regPlain(i)
+		}
+		for i := 0; i < nRel; i++ {
+			regRel(i)
+		}
+	}
+	nRes := g.p.resources
+	if nRes >= 8 && g.rng.chance(35) {
+		nRes = ecs.MaskTotalBits // the whole id range, up to the last slot
+	}
+	for i := 0; i < nRes; i++ {
 		g.do("resreg")
 	}
 	if g.rng.chance(g.p.listener) {
@@ -426,6 +463,11 @@ func (g *Gen) step() {
 			}
 		}
 	}
+	if g.refused && len(g.openQueries()) == 0 {
+		g.refused = false
+		g.lateReg(1)
+		return
+	}
 	switch cat {
 	case "create":
 		g.genCreate(faulty)
@@ -470,6 +512,13 @@ func (g *Gen) step() {
 	case "observe":
 		g.genObserve()
 	case "latereg":
+		if faulty && len(g.openQueries()) > 0 && len(g.r.comps) < ecs.MaskTotalBits {
+			// refused while locked; the registry must be exactly as before (the next
+			// successful registration shows the id and the relation flag)
+			g.do("reg " + pick(g.rng, []string{"rel", "relp", "b8", "z"}))
+			g.refused = true
+			return
+		}
 		g.lateReg(1 + g.rng.intn(2))
 	}
 }
@@ -910,7 +959,22 @@ func (g *Gen) genBatch(faulty bool) {
 			f = g.filterStr(0)
 		}
 		cmd := pick(g.rng, []string{"b_setrel", "rb_set"})
-		g.do(fmt.Sprintf("%s%s %s %d %s", cmd, q, f, r, g.targetRef("")))
+		tg := g.targetRef("")
+		if g.rng.chance(35) {
+			// an existing, empty destination table that comes after its sources: a child of the
+			// new target with the components of one of the entities to move, created and removed
+			for _, i := range g.aliveIdx() {
+				cs := g.compsOf(i)
+				if contains(cs, r) {
+					out := g.do(fmt.Sprintf("bld I %s R %d new T %s", idsStr(cs), r, tg))
+					if len(out) > 0 && strings.HasPrefix(out[0], "= ok ") {
+						g.do(fmt.Sprintf("rm e%d", len(g.r.handles)-1))
+					}
+					break
+				}
+			}
+		}
+		g.do(fmt.Sprintf("%s%s %s %d %s", cmd, q, f, r, tg))
 	case 7: // Relations.ExchangeBatch: add relation r with target
 		if len(g.rels) == 0 {
 			return
@@ -963,6 +1027,14 @@ func (g *Gen) genCache(faulty bool) {
 			// registered and original form must select the same (C07)
 			g.do("qall " + f)
 			g.do("qall C " + out[0][6:])
+			if g.rng.chance(40) && len(g.openQueries()) == 0 {
+				// tables that come into existence after the registration
+				for i := 0; i < 1+g.rng.intn(3); i++ {
+					g.do(fmt.Sprintf("new %s", idsStr(g.compSet(3))))
+				}
+				g.do("qall " + f)
+				g.do("qall C " + out[0][6:])
+			}
 		}
 	} else {
 		g.do(fmt.Sprintf("cunreg %d", g.rng.intn(len(g.r.cfilters))))
@@ -978,6 +1050,13 @@ func (g *Gen) genQuery(faulty bool) {
 	k := pick(g.rng, open)
 	q := g.r.queries[k]
 	all := append(append([]int{}, g.plain...), g.rels...)
+	if faulty && g.rng.chance(25) && len(g.r.comps) < ecs.MaskTotalBits {
+		// registration is refused while locked; the registry must be exactly as before (the
+		// next successful registration shows the id and the relation flag)
+		g.do("reg " + pick(g.rng, []string{"rel", "relp", "b8", "z"}))
+		g.refused = true
+		return
+	}
 	x := g.rng.intn(100)
 	if q.pos && g.rng.chance(50) {
 		x = 62 + g.rng.intn(33)
@@ -1272,6 +1351,9 @@ func (g *Gen) genResource(faulty bool) {
 		return
 	}
 	k := g.rng.intn(n)
+	if g.rng.chance(30) {
+		k = n - 1 - g.rng.intn(min(n, 3))
+	}
 	if g.rng.chance(8) && n < 40 {
 		g.do("resreg")
 		return
@@ -1435,6 +1517,9 @@ func Generate(seed uint64, p profile, n int) (g *Gen) {
 		}
 	}()
 	g.setup()
+	if len(g.ops) > 40 {
+		n += len(g.ops) - 40 // long setups (padded registrations, the full resource range) do not eat the budget
+	}
 	for len(g.ops) < n {
 		g.step()
 	}
